@@ -3,7 +3,10 @@ from ..bij import ob_roundtrip  # noqa: F401  (resolved by name in workers)
 
 QUICK = ["affine2", "affine22", "affine0", "affine_bcast", "affine_bcast2", "loc", "scale", "tri2l", "tri2u", "addcond", "exp", "expvec", "softplus", "tanh",
          "leakytanh", "rqs1", "rqs1b", "planar2", "planar2s", "perm3", "perm22", "flip3", "identity"]
-THOROUGH = QUICK + ["tri3l", "tri3u", "rqs2", "rqs2b", "rqs3", "planar1", "planar2c", "flip22"]
+# (the conditional planar layer `planar2c` is not in any tier: its conditioner can output w == 0, where get_act_scale divides by |w|^2 - the
+#  singularity that the unconditional instances exclude by the stated precondition w != 0 and that cannot be assumed away at the level of the
+#  network weights; the conditional layer is exercised through planar_flow in C03 / C14 / C18)
+THOROUGH = QUICK + ["tri3l", "tri3u", "rqs2", "rqs2b", "rqs3", "planar1", "flip22"]
 
 META = dict(
     files=["flowjax/bijections/bijection.py", "flowjax/bijections/affine.py", "flowjax/bijections/rational_quadratic_spline.py",
